@@ -27,7 +27,7 @@ theorem rescale_pixelscale (px s : K) (hs : s ≠ 0) : pixelscale px s = px / s 
 
 /-- resampling to a new pixel scale yields exactly that pixel scale -/
 theorem resample_scale (px new : K) (hp : px ≠ 0) (hn : new ≠ 0) : pixelscale px (resampleScale px new) = new := by
-  unfold pixelscale resampleScale; field_simp
+  unfold pixelscale resampleScale; simp only [Gen.prResampleScale]; field_simp
 
 /-- per axis: a plane sampled at `(px0, px1)` comes back at `(px0/s, px1/s)`; a plane without pixel scale stays without -/
 theorem rescale_pixelscale_per_axis (px0 px1 s : K) (hs : s ≠ 0) :
@@ -36,7 +36,7 @@ theorem rescale_pixelscale_per_axis (px0 px1 s : K) (hs : s ≠ 0) :
     planePixelscale (none : Option (K × K)) s = none := by
   refine ⟨rfl, ?_, rfl⟩
   intro q hq
-  simp only [planePixelscale, Option.map_some, Option.some.injEq] at hq
+  simp only [planePixelscale, Gen.prPixelscale, Option.map_some, Option.some.injEq] at hq
   subst hq
   constructor <;> field_simp
 
@@ -56,7 +56,7 @@ theorem resample_guards (px : Option (K × K)) (new : K) (hn : new ≠ 0) :
       simp only [resample, h, if_true, Resample.scale.injEq] at hs
       subst hs
       have hp2 : p.2 ≠ 0 := h ▸ hp0
-      simp only [planePixelscale, Option.map_some, Option.some.injEq, Prod.mk.injEq, resampleScale]
+      simp only [planePixelscale, Gen.prPixelscale, Gen.prResampleScale, Option.map_some, Option.some.injEq, Prod.mk.injEq, resampleScale]
       rw [← h]; constructor <;> field_simp
     · exact ⟨by simp [resample, h], by simp [resample, h], by intro p' s hp _ hs; simp [resample, h] at hs⟩
 
@@ -68,17 +68,30 @@ theorem resample_unit_invariant (px : Option (K × K)) (new k : K) (hk : k ≠ 0
   cases px with
   | none => rfl
   | some p =>
-    simp only [resample, Option.map_some, resampleScale]
+    simp only [resample, Option.map_some, resampleScale, Gen.prResampleScale]
     by_cases h : p.1 = p.2
     · simp only [h, if_true, Resample.scale.injEq]; field_simp
     · have : ¬ (k * p.1 = k * p.2) := fun e => h (mul_left_cancel₀ hk e)
       simp [h, this]
 
+/-- `Plane.rescale` / `Plane.resample` wired as the source wires them (regenerated, tools/specs/c17.py `plane_generator`): work on
+`self.copy()`; amplitude and OPD interpolated (order 3, nearest, not unitary) only behind `ndim > 1`, the amplitude then divided by
+the scale, the OPD not; every mask segment order 0 / constant; then binarise, cast to int, recompute the slices, divide BOTH
+pixel-scale components; `resample` refuses a missing and a non-uniform pixel scale in that order and hands `px[0]/new` on -/
+theorem plane_rescale_wiring (px0 px1 s new : K) :
+    Gen.prSteps = ["copy:self.copy()", "amplitude", "opd", "mask", "binarise", "astype(int)", "slice", "pixelscale"] ∧
+    Gen.prInterp = [("amplitude", "ndim > 1", "3", "'nearest'", "False"), ("opd", "ndim > 1", "3", "'nearest'", "False"),
+                    ("mask", "always (each segment)", "0", "'constant'", "False")] ∧
+    Gen.prResampleGuards = [("not self.pixelscale", "ValueError"), ("self.pixelscale[0] != self.pixelscale[1]", "NotImplementedError")] ∧
+    Gen.prAmplitudeFactor (1 : K) s = 1 / s ∧ Gen.prOpdFactor (1 : K) s = 1 ∧
+    Gen.prPixelscale px0 px1 s = (px0 / s, px1 / s) ∧ Gen.prResampleScale px0 px1 new = px0 / new := by
+  refine ⟨by decide, by decide, by decide, rfl, rfl, rfl, rfl⟩
+
 /-- the amplitude is divided by `s` exactly when it is an array (so that the `s²`-times more samples carry the same power);
 a scalar amplitude or OPD is passed through -/
 theorem amplitude_factor (s : K) :
     amplitudeFactor 2 s = 1 / s ∧ amplitudeFactor 0 s = 1 ∧ interpolated 2 = true ∧ interpolated 0 = false ∧ interpolated 1 = false := by
-  simp [amplitudeFactor, interpolated]
+  simp [amplitudeFactor, Gen.prAmplitudeFactor, interpolated]
 
 /-- the interpolation grid of `util.rescale` is uniform with spacing `1/s` and maps the centre of the output grid onto the
 centre of the input grid (`(k − S/2)/s + n/2`): sample `k+1` is `1/s` after sample `k`, and for even `S = 2h` sample `h` sits at `n/2` -/
@@ -169,7 +182,7 @@ theorem constant_aperture_power (n0 n1 : Nat) (a s : K) (hs : 0 < s) :
     · rw [div_le_iff₀ hs]; have : ((n : K) + 1 / s) * s = n * s + 1 := by field_simp
       rw [this]; exact le_of_lt h2
   have hP : P' = ((S0 : K) / s) * ((S1 : K) / s) * a ^ 2 := by
-    simp only [P', Finset.sum_const, Finset.card_range, nsmul_eq_mul, amplitudeFactor]
+    simp only [P', Finset.sum_const, Finset.card_range, nsmul_eq_mul, amplitudeFactor, Gen.prAmplitudeFactor]
     norm_num
     field_simp
   obtain ⟨a0, b0⟩ := key n0
@@ -188,7 +201,7 @@ theorem rescale_roundtrip (px0 px1 s : K) (hs : 0 < s) (n m : Int) (hnm : (n : K
     outShape Int.ceil (fun k => (k : K)) (outShape Int.ceil (fun k => (k : K)) n s) (1 / s) = n := by
   have hs' : s ≠ 0 := ne_of_gt hs
   constructor
-  · simp only [planePixelscale, Option.map_some, Option.bind_some, Option.some.injEq, Prod.mk.injEq]
+  · simp only [planePixelscale, Gen.prPixelscale, Option.map_some, Option.bind_some, Option.some.injEq, Prod.mk.injEq]
     constructor <;> field_simp
   · have h1 : outShape Int.ceil (fun k => (k : K)) n s = m := by
       simp only [outShape]; rw [hnm]; exact Int.ceil_intCast m
